@@ -786,6 +786,26 @@ func c17Cases() []c17case {
 			d["responses"] = gen.S{"Thing": gen.S{"description": "a thing"}}
 			dig(d, "paths")["/nk"] = gen.S{"get": gen.S{"operationId": "nk", "parameters": gen.Arr(gen.S{"$ref": "#/parameters/Thing"}), "responses": gen.S{"200": gen.S{"$ref": "#/responses/Thing"}}}}
 		}},
+		{"produces-not-json-on-operation", func(d gen.S) {
+			dig(d, "paths")["/px"] = gen.S{"get": gen.S{"operationId": "px", "produces": gen.Arr("application/xml"), "responses": gen.S{"200": gen.S{"description": "ok", "schema": gen.S{"$ref": "#/definitions/Pet"}}}}}
+		}},
+		{"produces-not-json-on-document", func(d gen.S) {
+			d["produces"] = gen.Arr("text/plain")
+			dig(d, "paths")["/pd"] = gen.S{"get": gen.S{"operationId": "pd", "responses": gen.S{"200": gen.S{"description": "ok", "schema": gen.S{"type": "string", "maxLength": 9.0}}}}}
+		}},
+		{"produces-two-types", func(d gen.S) {
+			dig(d, "paths")["/p2"] = gen.S{"get": gen.S{"operationId": "p2", "produces": gen.Arr("application/xml", "application/json"), "responses": gen.S{"200": gen.S{"description": "ok", "schema": gen.S{"$ref": "#/definitions/Pet"}}}}}
+		}},
+		{"consumes-not-json-on-operation", func(d gen.S) {
+			dig(d, "paths")["/cx"] = gen.S{"post": gen.S{"operationId": "cx", "consumes": gen.Arr("application/xml"), "parameters": gen.Arr(gen.S{"name": "body", "in": "body", "required": true, "schema": gen.S{"$ref": "#/definitions/Pet"}}), "responses": okResp()}}
+		}},
+		{"consumes-not-json-on-document", func(d gen.S) {
+			d["consumes"] = gen.Arr("text/plain")
+			dig(d, "paths")["/cd"] = gen.S{"post": gen.S{"operationId": "cd", "parameters": gen.Arr(gen.S{"name": "body", "in": "body", "schema": gen.S{"type": "string", "minLength": 2.0}}), "responses": okResp()}}
+		}},
+		{"consumes-two-types", func(d gen.S) {
+			dig(d, "paths")["/c2"] = gen.S{"put": gen.S{"operationId": "c2", "consumes": gen.Arr("application/xml", "application/json"), "parameters": gen.Arr(gen.S{"name": "body", "in": "body", "schema": gen.S{"$ref": "#/definitions/Pet"}}), "responses": okResp()}}
+		}},
 		{"body-optional", func(d gen.S) {
 			dig(d, "paths")["/bo"] = gen.S{"post": gen.S{"operationId": "bo", "parameters": gen.Arr(gen.S{"name": "body", "in": "body", "schema": gen.S{"$ref": "#/definitions/Pet"}}), "responses": okResp()}}
 		}},
